@@ -76,6 +76,13 @@ func c16r6(r *R) {
 		o.Check(strings.HasPrefix(e, "(github.com/prometheus/client_golang/prometheus/promauto.Factory).NewCounterVec(github.com/prometheus/client_golang/prometheus/promauto.With(p0.MetricsRegistry), "), "metricRequestsTotal is set to %s, want the vector promauto registers with server.MetricsRegistry (an unregistered or second vector counts where nobody looks)", e)
 		gs := c.guardStrs(st.Block())
 		o.Check(hasGuard(gs, "-(*proxyserver.Server).metricsRegistered(p0)") || hasGuard(gs, "+(nil == p0.metricRequestsTotal)"), "the counter can be replaced after it was registered (a second Serve call would swap the live counter); guards %v", gs)
+		// and it is registered whenever there is a registry and no counter yet: nothing else decides
+		for _, alt := range c.pathAlts(st.Block()) {
+			for _, l := range alt {
+				okLit := l == "-(*proxyserver.Server).metricsRegistered(p0)" || relHolds([]string{l}, "p0.metricRequestsTotal", "==", "nil") || relHolds([]string{l}, "p0.MetricsRegistry", "!=", "nil")
+				o.Check(okLit, "whether requests_total is registered depends on %s (conditions %v): want `a registry is configured and the counter does not exist yet`", l, alt)
+			}
+		}
 	}
 	o.Check(n == 1, "metricRequestsTotal has %d writers, want exactly one (registerMetrics)", n)
 }
@@ -119,6 +126,26 @@ func c16r1(r *R) {
 	o.Check(res.Exits >= 1, "no normal exit found")
 	o.Check(!res.InLoop, "a requests_total increment lies inside a loop")
 	o.Check(res.Min == 1 && res.Max == 1, "requests_total increments per entry→return path: min=%d max=%d (want exactly 1 on every path)", res.Min, res.Max)
+	// a panic between the failed handshake and the count is recovered by serveConn's deferred function, but the count
+	// is lost: the 400 reply for a plain-HTTP client is written to the record-header error's connection, which crypto/tls
+	// leaves nil for every error but "first record does not look like a TLS handshake"
+	c := r.C
+	eachInstr(sc, func(i ssa.Instruction) {
+		cc := callOf(i)
+		if cc == nil {
+			return
+		}
+		for _, a := range cc.Args {
+			e := c.Expr(a)
+			if !strings.HasSuffix(e, "#0.Conn") || !strings.Contains(e, "assert[tls.RecordHeaderError](") {
+				continue
+			}
+			okA := strings.TrimSuffix(e, "#0.Conn") + "#1"
+			for _, alt := range c.pathAlts(i.Block()) {
+				o.AtI(i).Check(hasGuard(alt, "+"+okA) && relHolds(alt, e, "!=", "nil"), "%s is handed the record-header error's connection without `ok && re.Conn != nil` (conditions %v): a nil connection panics here, before the connection is counted", calleeName(cc), alt)
+			}
+		}
+	})
 	// a deferred increment would run on every exit in addition: forbid defers of the counter unless it is the only site
 	eachInstr(sc, func(i ssa.Instruction) {
 		if d, ok := i.(*ssa.Defer); ok {
@@ -303,6 +330,33 @@ func c16r4(r *R) {
 			els := variadicElems(callOf(w).Args[1])
 			if o3.Check(len(els) == 2, "WithLabelValues gets %d labels", len(els)) {
 				o3.Check(c.Expr(els[0]) == "p1" && c.Expr(els[1]) == "p2", "label values are (%s, %s), want (ok, negotiatedProtocol)", c.Expr(els[0]), c.Expr(els[1]))
+			}
+		}
+	}
+	// the increment happens whenever the counter exists: its only condition is that test
+	for _, s := range callsIn(inc, "(github.com/prometheus/client_golang/prometheus.Counter).Inc") {
+		o3.AtI(s)
+		for _, alt := range c.pathAlts(s.Block()) {
+			for _, l := range alt {
+				okLit := l == "+(*proxyserver.Server).metricsRegistered(p0)" || relHolds([]string{l}, "p0.metricRequestsTotal", "!=", "nil")
+				o3.Check(okLit, "the increment is conditional on %s (conditions %v): want only `the counter exists`", l, alt)
+			}
+		}
+	}
+	if mr := c.Method("pkg/proxyserver", "Server", "metricsRegistered"); mr != nil {
+		o5 := r.Ob("C16.R4", "registered-means-counter-exists:"+funcName(mr)).At(mr.Pos())
+		alts := c.returnAlts(mr, 0)
+		o5.Check(len(alts) > 0, "metricsRegistered has no return")
+		for _, ra := range alts {
+			o5.AtI(ra.Ret)
+			switch {
+			case ra.E == "(nil != p0.metricRequestsTotal)" || ra.E == "(p0.metricRequestsTotal != nil)":
+			case ra.E == "true":
+				o5.Check(relHolds(ra.Lits, "p0.metricRequestsTotal", "!=", "nil"), "metricsRegistered returns true under %v", ra.Lits)
+			case ra.E == "false":
+				o5.Check(relHolds(ra.Lits, "p0.metricRequestsTotal", "==", "nil"), "metricsRegistered returns false under %v", ra.Lits)
+			default:
+				o5.Fail("metricsRegistered returns %s, want metricRequestsTotal != nil (with the test inverted the increment dereferences a nil counter and registration never happens)", ra.E)
 			}
 		}
 	}
